@@ -64,71 +64,128 @@ theorem reopen_worker_facts (id : Nat) (pl : Option LogId) :
   · simp [Worker.announced, Worker.cur, newestId, Worker.rest, WPc.inHand, annIds]
   · simp [Worker.toRemove, WPc.unl, WPc.inHand, rmIds]
 
-theorem JInv.reopen {s s' : Store} {fs : Fs} {w : Worker} (hj : JInv s fs w)
+/-- A file system with the same ids and bytes (D15: `open` syncs the kept files). -/
+structure SameBytes (fs fs' : Fs) : Prop where
+  ids : Fs.ids fs' = Fs.ids fs
+  data : ∀ i, fdata fs' i = fdata fs i
+  has : ∀ i, fs'.has i = fs.has i
+
+theorem SameBytes.refl (fs : Fs) : SameBytes fs fs := ⟨rfl, fun _ => rfl, fun _ => rfl⟩
+
+theorem SameBytes.syncAll (fs : Fs) (ids : List Nat) : SameBytes fs (fs.syncAll ids) :=
+  ⟨Fs.ids_syncAll fs ids, fdata_syncAll fs ids, Fs.has_syncAll fs ids⟩
+
+theorem JInv.reopen {s s' : Store} {fs fs' : Fs} {w : Worker} (hj : JInv s fs w)
+    (hsb : SameBytes fs fs')
     (hinf : ∀ id, w.inflight id = []) (hp : s.pending = [])
     (h1 : s'.st = s.st) (h2 : s'.log = s.log) (h3 : s'.openOffsets = s.openOffsets)
     (h4 : s'.pending = []) (h5 : s'.closed = s.closed) (pl : Option LogId) :
-    JInv s' fs { files := [⟨s.openId, pl⟩] } := by
+    JInv s' fs' { files := [⟨s.openId, pl⟩] } := by
   obtain ⟨f1, f2, _⟩ := reopen_worker_facts s.openId pl
   have e1 : s'.openId = s.openId := by simp [Store.openId, h3]
   have e2 : s'.openEnd = s.openEnd := by simp [Store.openEnd, h3]
   have e3 : s'.chunks = s.chunks := by simp [Store.chunks, h3, h5]
-  refine ⟨trivial, by rw [h1]; exact hj.stWF, by rw [h2]; exact hj.logWF, by rw [e2]; exact hj.fsLt,
+  refine ⟨trivial, by rw [h1]; exact hj.stWF, by rw [h2]; exact hj.logWF,
+    by rw [e2, hsb.ids]; exact hj.fsLt,
     by rw [f2, e1]; rfl, by rw [f2]; simp [Incr], ?_, by rw [e3]; exact hj.chained,
-    by rw [h5, e1]; exact hj.closedLe, by rw [h5]; exact hj.closedFs, ?_, ?_⟩
+    by rw [h5, e1]; exact hj.closedLe, by rw [h5, hsb.ids]; exact hj.closedFs, ?_, ?_⟩
   · intro a ha
     rw [f2] at ha
     simp at ha; subst ha
+    rw [hsb.ids]
     exact hj.annFs _ hj.openId_mem
-  · rw [h3, e1, f1, h4]
+  · rw [h3, e1, f1, h4, hsb.data]
     have := hj.openBytes
     rw [hinf, hp] at this
     exact this
   · intro c hc
     rw [h5] at hc
-    rw [f1]
+    rw [f1, hsb.data]
     have := hj.closedBytes c hc
     rw [hinf] at this
     exact this
 
-theorem RInv.reopen {s s' : Store} {fs : Fs} {w : Worker} {r : RefLog} (h : RInv s fs w r)
+theorem RInv.reopen {s s' : Store} {fs fs' : Fs} {w : Worker} {r : RefLog} (h : RInv s fs w r)
+    (hsb : SameBytes fs fs')
     (hinf : ∀ id, w.inflight id = []) (hp : s.pending = [])
     (h1 : s'.st = s.st) (h2 : s'.log = s.log) (h3 : s'.openOffsets = s.openOffsets)
     (h4 : s'.pending = []) (h5 : s'.closed = s.closed) (pl : Option LogId) :
-    RInv s' fs { files := [⟨s.openId, pl⟩] } r := by
+    RInv s' fs' { files := [⟨s.openId, pl⟩] } r := by
   obtain ⟨f1, _, _⟩ := reopen_worker_facts s.openId pl
-  refine ⟨h.j.reopen hinf hp h1 h2 h3 h4 h5 pl, h.abs.of_fields h1 h2 h3,
+  refine ⟨h.j.reopen hsb hinf hp h1 h2 h3 h4 h5 pl, h.abs.of_fields h1 h2 h3,
     h.rep.transport h1 h2 h3 h5 (fun id => ?_)⟩
   have e1 : s'.openId = s.openId := by simp [Store.openId, h3]
-  simp only [chunkBytes, f1, hinf, h4, hp, e1]
+  simp only [chunkBytes, f1, hinf, h4, hp, e1, hsb.data]
 
-theorem LInv.reopen {s s' : Store} {fs : Fs} {w : Worker} (h : LInv s fs w)
+theorem LInv.reopen {s s' : Store} {fs fs' : Fs} {w : Worker} (h : LInv s fs w)
+    (hsb : SameBytes fs fs')
     (hrem : s.removed = []) (htr : w.toRemove = [])
     (h3 : s'.openOffsets = s.openOffsets) (h5 : s'.closed = s.closed) (h6 : s'.removed = [])
-    (pl : Option LogId) : LInv s' fs { files := [⟨s.openId, pl⟩] } := by
+    (pl : Option LogId) : LInv s' fs' { files := [⟨s.openId, pl⟩] } := by
   obtain ⟨_, _, f3⟩ := reopen_worker_facts s.openId pl
   have e : s'.chunkIds = s.chunkIds := by
     rw [Store.chunkIds_eq, Store.chunkIds_eq, h5]; simp [Store.openId, h3]
-  refine ⟨h.nodup, by rw [e]; exact h.live, fun id hid => ?_, fun x hx => ?_⟩
-  · rcases h.dead id hid with k | k | k
+  refine ⟨by rw [hsb.ids]; exact h.nodup, by rw [e]; intro id hid; rw [hsb.has]; exact h.live id hid,
+    fun id hid => ?_, fun x hx => ?_⟩
+  · rw [hsb.has] at hid
+    rcases h.dead id hid with k | k | k
     · exact Or.inl (by rw [e]; exact k)
     · rw [hrem] at k; cases k
     · rw [htr] at k; cases k
   · rw [h6, f3] at hx
     rcases hx with k | k <;> cases k
 
+/-- D15: when every linked file is already durable, syncing the linked files changes nothing
+(the normal case of a clean restart). -/
+theorem syncAll_linkedIds_self {fs : Fs} (hn : (Fs.ids fs).Nodup)
+    (hd : ∀ f ∈ fs, f.linked = true → f.durable = f.data.length) :
+    fs.syncAll fs.linkedIds = fs := by
+  apply Fs.syncAll_eq_self
+  intro f hf hid
+  apply hd f hf
+  have hhas := ((Fs.linkedIds_spec hn).2 f.id).mp hid
+  unfold Fs.has at hhas
+  cases hg : fs.find f.id with
+  | none => rw [hg] at hhas; cases hhas
+  | some g =>
+    rw [hg] at hhas
+    have hgm : g ∈ fs := List.mem_of_find?_eq_some hg
+    have hgid : g.id = f.id := find_id hg
+    rw [← eq_of_nodup_ids hn hgm hf hgid]
+    exact hhas
+
+/-- D15: after the syncs of `open`, every linked file is durable up to its length. -/
+theorem syncAll_linkedIds_durable {fs : Fs} (hn : (Fs.ids fs).Nodup) :
+    ∀ f ∈ fs.syncAll fs.linkedIds, f.linked = true → f.durable = f.data.length := by
+  intro f hf hl
+  rw [Fs.syncAll_eq_map] at hf
+  obtain ⟨f0, h0, e⟩ := List.mem_map.mp hf
+  by_cases hc : fs.linkedIds.contains f0.id = true
+  · rw [if_pos hc] at e; subst e; rfl
+  · exfalso
+    rw [if_neg hc] at e; subst e
+    have hhas : fs.has f0.id = true := (Fs.has_iff hn f0.id).mpr ⟨f0, h0, hl, rfl⟩
+    have := ((Fs.linkedIds_spec hn).2 f0.id).mpr hhas
+    exact hc (by simpa using this)
+
+theorem CSys.nodup {y : Sys} {r : RefLog} (h : CSys y r) : (Fs.ids y.fs).Nodup := by
+  obtain ⟨_, ⟨s1, _, hli⟩⟩ := h
+  exact hli.nodup
+
 /-- **Drop and reopen.** The system is quiescent (worker blocked on an empty
 queue), everything is flushed (`pending = []`, `removed = []`) and the worker
 holds no postponed removal. Then `.drop` followed by `.openWith cfg'` succeeds,
-changes no file, emits no file event, and the reopened store has the same
+only syncs the live chunk files (D15: events `syncEvs y.fs.linkedIds`, file system
+`y.fs.syncAll y.fs.linkedIds`; old: no event, `y.fs`), and the reopened store has the same
 state, index map, closed chunks and open chunk; the invariants hold again. -/
 theorem restart_core (y : Sys) (s : Store) (r : RefLog) (cfg' : Cfg) (h : CSys y r)
     (hs : y.store = some s) (hq : y.worker.quiet = true) (hp : s.pending = [])
     (hrem : s.removed = []) (hpost : y.worker.postponed = []) :
     ∃ s', ((y.step .drop).step (.openWith cfg')).store = some s' ∧
       ({ (y.step .drop) with cfg := cfg' } : Sys).open.1 = .ok () ∧
-      ({ (y.step .drop) with cfg := cfg' } : Sys).open.2.2 = [] ∧
-      (y.step .drop).fs = y.fs ∧ ((y.step .drop).step (.openWith cfg')).fs = y.fs ∧
+      ({ (y.step .drop) with cfg := cfg' } : Sys).open.2.2 = syncEvs y.fs.linkedIds ∧
+      (y.step .drop).fs = y.fs ∧
+      ((y.step .drop).step (.openWith cfg')).fs = y.fs.syncAll y.fs.linkedIds ∧
       s'.st = s.st ∧ s'.log = s.log ∧ s'.closed = s.closed ∧ s'.openOffsets = s.openOffsets ∧
       s'.pending = [] ∧ s'.removed = [] ∧ s'.cfg = cfg' ∧
       s'.cache.maxItems = cfg'.cacheItems ∧ s'.cache.capacity = cfg'.cacheCap ∧
@@ -144,26 +201,28 @@ theorem restart_core (y : Sys) (s : Store) (r : RefLog) (cfg' : Cfg) (h : CSys y
   obtain ⟨d1, d2, d3, _⟩ := dropStore_quiet y s hs hpc hqe
   have hlinked := hli.linkedIds_eq hinv.j hrem htr
   obtain ⟨s', ho, k1, k2, k3, k4, k5, k6, k7, k8, k9⟩ := openStore_of_rep cfg' hinv hinf hp hlinked
+  rw [← hlinked] at ho
   have hopen : ({ (y.step .drop) with cfg := cfg' } : Sys).open =
       (.ok (), { ({ (y.step .drop) with cfg := cfg' } : Sys) with
-        fs := y.fs, store := some s',
-        worker := { files := [⟨s.openId, prevLastOf s.closed⟩] }, locked := true }, []) := by
+        fs := y.fs.syncAll y.fs.linkedIds, store := some s',
+        worker := { files := [⟨s.openId, prevLastOf s.closed⟩] }, locked := true },
+        syncEvs y.fs.linkedIds) := by
     simp only [Sys.step, Sys.open, d2, d1, ho]
     simp
   have hy2 : (y.step .drop).step (.openWith cfg') =
       { ({ (y.step .drop) with cfg := cfg' } : Sys) with
-        fs := y.fs, store := some s',
+        fs := y.fs.syncAll y.fs.linkedIds, store := some s',
         worker := { files := [⟨s.openId, prevLastOf s.closed⟩] }, locked := true } := by
     show ({ (y.step .drop) with cfg := cfg' } : Sys).open.2.1 = _
     rw [hopen]
   refine ⟨s', by rw [hy2], by rw [hopen], by rw [hopen], d1, by rw [hy2], k1, k2, k3, k4, k5, k6, k7,
     k8, k9, ?_, ?_⟩
   · rw [hy2]
-    exact ⟨⟨s', rfl, by simp, hinv.reopen hinf hp k1 k2 k4 k5 k3 _⟩,
-      ⟨s', rfl, hli.reopen hrem htr k4 k3 k6 _⟩⟩
+    exact ⟨⟨s', rfl, by simp, hinv.reopen (SameBytes.syncAll _ _) hinf hp k1 k2 k4 k5 k3 _⟩,
+      ⟨s', rfl, hli.reopen (SameBytes.syncAll _ _) hrem htr k4 k3 k6 _⟩⟩
   · intro hN hB
     obtain ⟨s'', ho', href⟩ := openStore_refines cfg' hinv hinf hp hlinked hN hB
-    rw [ho] at ho'
+    rw [← hlinked, ho] at ho'
     simp only [Prod.mk.injEq, Res.ok.injEq] at ho'
     rw [ho'.1.1]
     exact href
